@@ -49,6 +49,8 @@ def plan(ctx):
             items.append(('long', engine.stable_hash((ctx.seed, 'c06l', i))))
         for i in range(ctx.n(20, 0)):
             items.append(('bufedge', engine.stable_hash((ctx.seed, 'c06b', i))))
+        for i in range(ctx.n(30, 0)):
+            items.append(('sbswrap', engine.stable_hash((ctx.seed, 'c06w', i))))
     else:
         for (r, dd) in combos:
             for part in range(4):
@@ -63,6 +65,8 @@ def plan(ctx):
             items.append(('long', engine.stable_hash((ctx.seed, 'c06l', i))))
         for i in range(ctx.n(0, 300)):
             items.append(('bufedge', engine.stable_hash((ctx.seed, 'c06b', i))))
+        for i in range(ctx.n(0, 600)):
+            items.append(('sbswrap', engine.stable_hash((ctx.seed, 'c06w', i))))
     return items
 
 
@@ -271,7 +275,106 @@ def run_item(item):
         return run_long(item)
     if kind == 'bufedge':
         return run_buffer_edge(item)
+    if kind == 'sbswrap':
+        return run_sbs_wrapped(item)
     return run_single(item)
+
+
+def run_sbs_wrapped(item):
+    """Side-by-side view, panels so narrow that the lines of a pair wrap into different numbers of rows, several pairs per
+    sub-hunk: every line is put together again from its rows (per panel), and the reassembled pair must satisfy the same
+    oracle as in the unified view - deleting the emphasised parts of both leaves the same text."""
+    _, seed = item
+    rng = engine.item_rng(seed)
+    W = rng.choice([60, 72, 80, 100])
+    words = ['alpha', 'beta', 'gamma', 'delta', 'compute', 'first_arg', 'second', 'value', 'x', 'yy', 'result', 'return', 'config']
+    subhunks = []
+    for _ in range(24):
+        k = rng.randint(2, 3)
+        ms, ps = [], []
+        for j in range(k):
+            toks = [rng.choice(words) + str(rng.randrange(100)) for _ in range(rng.randint(6, 34))]
+            t2 = list(toks)
+            t2[rng.randrange(len(t2))] = 'CHANGED%d' % rng.randrange(100)
+            r = rng.random()
+            if r < 0.45 and len(t2) > 8:
+                t2 = t2[:rng.randint(3, len(t2) // 2)]          # the added line is much shorter: fewer rows
+            elif r < 0.7:
+                t2 = t2 + [rng.choice(words) + str(rng.randrange(100)) for _ in range(rng.randint(4, 20))]   # ... or longer
+            ms.append(' '.join(toks))
+            ps.append(' '.join(t2))
+        subhunks.append((ms, ps))
+    extra = {'--wrap-max-lines': 'unlimited'}
+    lines = ['diff --git a/f b/f', '--- a/f', '+++ b/f']
+    for o_, (ms, ps) in enumerate(subhunks):
+        lines.append('@@ -%d,%d +%d,%d @@' % (o_ + 1, len(ms) + 1, o_ + 1, len(ps) + 1))
+        lines += ['-' + m for m in ms] + ['+' + p_ for p_ in ps] + [' ZZctxZZ']
+    opts = base_opts(r'\w+', '1', sbs_view=True, extra=extra)
+    opts['--width'] = W
+    res = runner.run_delta(gen.to_args(opts), ('\n'.join(lines) + '\n').encode(), timeout=120)
+    c = crash_outcome(res, ID)
+    if c is not None:
+        return [c]
+    if res.rc != 0:
+        return [inconclusive('exit %d: %s' % (res.rc, res.err[:100]))]
+    groups = []
+    cur = None
+    for info in rows.classify_all(res.out):
+        if info.kind == 'hunk':
+            cur = []
+            groups.append(cur)
+        elif info.kind == 'code' and cur is not None:
+            cur.append(info)
+    sets = {'family': ['sbs-wrapped'], 'regex': ['\\w+'], 'distance': ['1'], 'sbs_wrapped_widths': [str(W)]}
+    if len(groups) != len(subhunks):
+        return [inconclusive('side-by-side output could not be split into sub-hunks', sets=sets)]
+    outs = []
+    counters = {'sbs_wrapped_pairs': 0, 'sbs_wrapped_uneven_pairs': 0, 'sbs_rows': 0}
+
+    def cls_of(c_):
+        t = gen.TAG_BY_RGB.get(c_.bg)
+        return 'emph' if t in ('minus_emph', 'plus_emph') else 'nonemph' if t in ('minus_nonemph', 'plus_nonemph') else 'ws' if t == 'ws_err' else 'plain'
+    for grp, (ms, ps) in zip(groups, subhunks):
+        sides = {0: [], 1: []}      # per side: list of [cells of the line, number of rows]
+        open_ = {0: False, 1: False}
+        for info in grp:
+            L, R, ok = sbs.parse_sbs_row(info.row, W)
+            counters['sbs_rows'] += 1
+            for side, P, kind in ((0, L, '-'), (1, R, '+')):
+                if P.kind is None and not P.code_cells:
+                    continue
+                if P.kind not in (kind, None):
+                    continue          # the context line at the end of the sub-hunk
+                cells = [(c_.ch, cls_of(c_)) for c_ in P.code_cells]
+                if open_[side] and sides[side]:
+                    sides[side][-1][0] += cells
+                    sides[side][-1][1] += 1
+                else:
+                    sides[side].append([cells, 1])
+                open_[side] = P.has_wrap
+        ex = {'minus': ms, 'plus': ps, 'width': W}
+        bad = False
+        for side, want, name in ((0, ms, 'left'), (1, ps, 'right')):
+            got = [''.join(ch for ch, _ in cells).rstrip(' ') for cells, _ in sides[side]]
+            if got != [w_.rstrip(' ') for w_ in want]:
+                outs.append(violated('c06:sbs-wrapped:reassembly:' + name, 'the rows of the %s panel, put together again, are not the lines of the sub-hunk (once each, in order)' % name,
+                                     want, got, run=res, sets=sets, extra=ex))
+                bad = True
+        if bad:
+            continue
+        for j in range(min(len(ms), len(ps))):
+            mc, _n1 = sides[0][j]
+            pc, _n2 = sides[1][j]
+            mc, _ = strip_trailing_fill(mc, ms[j])
+            pc, _ = strip_trailing_fill(pc, ps[j])
+            counters['sbs_wrapped_pairs'] += 1
+            if _n1 != _n2:
+                counters['sbs_wrapped_uneven_pairs'] += 1
+            if not soundness(mc, pc):
+                outs.append(violated('c06:sbs-wrapped:unsound', 'side-by-side, wrapped pair %d of a sub-hunk: deleting the emphasised parts of both lines does not leave the same text' % j,
+                                     ''.join(ch for ch, cl in mc if cl != 'emph'), ''.join(ch for ch, cl in pc if cl != 'emph'), run=res, sets=sets, extra=ex))
+    outs.append(held(sig=('sbs-wrapped', W, seed % 1000), nontrivial=counters['sbs_wrapped_uneven_pairs'] > 0, counters=counters, sets=sets))
+    return outs
 
 
 def outcomes_for(res, subhunks, regex, dist, tag):
